@@ -352,8 +352,25 @@ I = z3.IntSort()
 B = z3.BoolSort()
 
 
+
+def _replay_num(fn, *xs):
+    """in a replay (concrete numbers, native comparison with a relative tolerance) the transcendental functions take their floating-point values"""
+    c = _CTX[0]
+    if c is None or not getattr(c, 'replay', False) or not all(_isnum(x) for x in xs):
+        return None
+    import math
+    try:
+        return Fraction(fn(*[float(Fraction(_c(x))) for x in xs]))
+    except (ValueError, OverflowError, ZeroDivisionError):
+        return None
+
+
 def sqrt(x):
     x = _generic(x)
+    import math as _m
+    r_ = _replay_num(_m.sqrt, x)
+    if r_ is not None and not (_isnum(x) and Fraction(_c(x)) >= 0 and _m.isqrt(Fraction(_c(x)).numerator) ** 2 == Fraction(_c(x)).numerator and _m.isqrt(Fraction(_c(x)).denominator) ** 2 == Fraction(_c(x)).denominator):
+        return r_
     if _isnum(x):
         f = Fraction(_c(x))
         if f < 0:
@@ -374,6 +391,10 @@ def sqrt(x):
 
 def cbrt(x):
     x = _generic(x)
+    import math as _m
+    r_ = _replay_num(_m.cbrt, x)
+    if r_ is not None:
+        return r_
     if _isnum(x):
         f = Fraction(_c(x))
         for sign in (1,):
@@ -465,6 +486,8 @@ def _enclose(app):
     c = CTX()
     if c is None or getattr(c, 'replay', False):
         return
+    if app.decl().name() in ('sqrt', 'cbrt') and all(z3.is_rational_value(x) or z3.is_int_value(x) for x in app.children()):
+        return           # root of a numeral: already pinned down exactly by its defining axiom (s*s = t, s >= 0); an extra numeric bound only slows other proofs
     r = _iv_eval(app)
     if r is None:
         return
@@ -491,6 +514,10 @@ def _enclose(app):
 
 def exp(x):
     x = _generic(x)
+    import math as _m
+    r_ = _replay_num(_m.exp, x)
+    if r_ is not None:
+        return r_
     if _isnum(x) and _c(x) == 0:
         return 1
     t = zterm(x, True)
@@ -505,6 +532,10 @@ def exp(x):
 
 def log(x):
     x = _generic(x)
+    import math as _m
+    r_ = _replay_num(_m.log, x)
+    if r_ is not None:
+        return r_
     if _isnum(x) and _c(x) == 1:
         return 0
     t = zterm(x, True)
@@ -1661,6 +1692,255 @@ def _random_refute(hyps, goal, tries=3, timeout_ms=3000):
     return None
 
 
+# ------------------------------------------------------------------------------------------------
+# (R2) counter-models in the STANDARD model: sqrt, cbrt, exp, log, sin, cos, arctan, pow and pi take their real meaning, the free constants and the
+# remaining uninterpreted applications (input arrays, callbacks) get random values, every formula is evaluated with outward-rounded intervals and a
+# candidate counts only if each hypothesis is CERTAINLY true and the goal CERTAINLY false.  All axioms of the opaque symbols are true of the real
+# functions, so such an assignment is a genuine counterexample of the obligation.
+# ------------------------------------------------------------------------------------------------
+_STD = ('sqrt', 'cbrt', 'exp', 'log', 'sin', 'cos', 'arctan', 'pow', 'arcsin', 'arccos')
+
+
+class _Unknown(Exception):
+    pass
+
+
+def _std_eval(t, env, rnd, memo):
+    """-> mpmath interval for arithmetic terms, True/False for boolean terms; raises _Unknown when a value cannot be certified"""
+    from mpmath import iv
+    k0 = t.get_id()
+    if k0 in memo:
+        return memo[k0]
+    r = _std_eval1(t, env, rnd, memo)
+    memo[k0] = r
+    return r
+
+
+def _std_eval1(t, env, rnd, memo):
+    from mpmath import iv
+    if z3.is_true(t):
+        return True
+    if z3.is_false(t):
+        return False
+    if z3.is_rational_value(t):
+        return iv.mpf(t.numerator_as_long()) / iv.mpf(t.denominator_as_long())
+    if z3.is_int_value(t):
+        return iv.mpf(t.as_long())
+    if z3.is_algebraic_value(t):
+        a = t.approx(30)
+        return iv.mpf(a.numerator_as_long()) / iv.mpf(a.denominator_as_long())
+    if z3.is_quantifier(t) or z3.is_var(t) or not z3.is_app(t):
+        raise _Unknown('u1')
+    k, nm, n = t.decl().kind(), t.decl().name(), t.num_args()
+    ev = lambda c: _std_eval(c, env, rnd, memo)
+    if n == 0:
+        if nm == 'pi':
+            return iv.pi
+        key = ('c', t.get_id())
+        if key not in env:
+            if z3.is_bool(t):
+                env[key] = (t, rnd.random() < 0.5)
+            elif z3.is_int(t):
+                env[key] = (t, rnd.choice([1, 2, 3, 4, 5, 7]))
+            elif z3.is_real(t):
+                env[key] = (t, Fraction(rnd.randint(1, 400), rnd.choice([3, 7, 10, 40, 100])))
+            else:
+                raise _Unknown('u2')
+        v = env[key][1]
+        return v if isinstance(v, bool) else iv.mpf(v.numerator) / iv.mpf(v.denominator) if isinstance(v, Fraction) else iv.mpf(v)
+    if k == z3.Z3_OP_AND:
+        vals = [ev(c) for c in t.children()]
+        return all(vals)
+    if k == z3.Z3_OP_OR:
+        return any([ev(c) for c in t.children()])
+    if k == z3.Z3_OP_NOT:
+        return not ev(t.arg(0))
+    if k == z3.Z3_OP_IMPLIES:
+        return (not ev(t.arg(0))) or ev(t.arg(1))
+    if k == z3.Z3_OP_ITE:
+        return ev(t.arg(1)) if ev(t.arg(0)) else ev(t.arg(2))
+    if k in (z3.Z3_OP_EQ, z3.Z3_OP_IFF) and z3.is_bool(t.arg(0)):
+        return ev(t.arg(0)) == ev(t.arg(1))
+    if k in (z3.Z3_OP_LE, z3.Z3_OP_LT, z3.Z3_OP_GE, z3.Z3_OP_GT, z3.Z3_OP_EQ, z3.Z3_OP_DISTINCT):
+        a, b = ev(t.arg(0)), ev(t.arg(1))
+        d = a - b
+        if k == z3.Z3_OP_LE or k == z3.Z3_OP_LT:
+            if d.b < 0 or (k == z3.Z3_OP_LE and d.b <= 0):
+                return True
+            if d.a > 0 or (k == z3.Z3_OP_LT and d.a >= 0):
+                return False
+            raise _Unknown('u3')
+        if k == z3.Z3_OP_GE or k == z3.Z3_OP_GT:
+            if d.a > 0 or (k == z3.Z3_OP_GE and d.a >= 0):
+                return True
+            if d.b < 0 or (k == z3.Z3_OP_GT and d.b <= 0):
+                return False
+            raise _Unknown('u4')
+        if d.a > 0 or d.b < 0:
+            return k == z3.Z3_OP_DISTINCT
+        if d.a == 0 and d.b == 0:
+            return k == z3.Z3_OP_EQ
+        if env.get('__hyp__') and (d.b - d.a) < iv.mpf(10) ** -20 * (1 + abs(a.mid)):
+            # a HYPOTHESIS that is an identity of the real functions (e.g. an assumed log(u/v) = log u - log v) cannot be certified exactly by intervals;
+            # it is accepted when both sides agree to 20 digits (the goal itself is never judged this way)
+            return k == z3.Z3_OP_EQ
+        raise _Unknown('u5')
+    if k == z3.Z3_OP_ADD:
+        r = ev(t.arg(0))
+        for c in t.children()[1:]:
+            r = r + ev(c)
+        return r
+    if k == z3.Z3_OP_SUB:
+        r = ev(t.arg(0))
+        for c in t.children()[1:]:
+            r = r - ev(c)
+        return r
+    if k == z3.Z3_OP_UMINUS:
+        return -ev(t.arg(0))
+    if k == z3.Z3_OP_MUL:
+        r = ev(t.arg(0))
+        for c in t.children()[1:]:
+            r = r * ev(c)
+        return r
+    if k == z3.Z3_OP_DIV:
+        a, b = ev(t.arg(0)), ev(t.arg(1))
+        if b.a <= 0 <= b.b:
+            raise _Unknown('u6')
+        return a / b
+    if k in (z3.Z3_OP_TO_REAL, z3.Z3_OP_TO_INT):
+        a = ev(t.arg(0))
+        if k == z3.Z3_OP_TO_INT:
+            if a.a != a.b:
+                raise _Unknown('u7')
+            import math
+            return iv.mpf(math.floor(float(a.a)))
+        return a
+    if k == z3.Z3_OP_POWER:
+        a, b = ev(t.arg(0)), ev(t.arg(1))
+        if a.a <= 0:
+            raise _Unknown('u8')
+        return iv.exp(b * iv.log(a))
+    if k == z3.Z3_OP_UNINTERPRETED:
+        args = [ev(c) for c in t.children()]
+        base = nm.split('!')[0]
+        if base in _STD and nm == base:
+            x = args[0]
+            if base == 'sqrt':
+                if x.a < 0:
+                    raise _Unknown('u9')
+                return iv.sqrt(x)
+            if base == 'cbrt':
+                if x.a > 0:
+                    return iv.exp(iv.log(x) / 3)
+                if x.b < 0:
+                    return -iv.exp(iv.log(-x) / 3)
+                raise _Unknown('u10')
+            if base == 'exp':
+                return iv.exp(x)
+            if base == 'log':
+                if x.a <= 0:
+                    raise _Unknown('u11')
+                return iv.log(x)
+            if base == 'sin':
+                return iv.sin(x)
+            if base == 'cos':
+                return iv.cos(x)
+            if base == 'arctan':
+                return iv.atan(x)
+            if base == 'pow':
+                if x.a <= 0:
+                    raise _Unknown('u12')
+                return iv.exp(args[1] * iv.log(x))
+            raise _Unknown('u13')                      # arcsin / arccos: no interval routine
+        # any other uninterpreted function (input array, callback result): a random value per distinct argument tuple
+        if any(not isinstance(a, bool) and a.a != a.b for a in args):
+            raise _Unknown('u14')
+        key = ('f', nm) + tuple(a if isinstance(a, bool) else str(a.a) for a in args)
+        if key not in env:
+            if z3.is_bool(t):
+                env[key] = (t, rnd.random() < 0.5)
+            elif z3.is_int(t):
+                env[key] = (t, rnd.choice([0, 1, 2, 3]))
+            else:
+                env[key] = (t, Fraction(rnd.randint(1, 400), rnd.choice([3, 7, 10, 40, 100])))
+        v = env[key][1]
+        return v if isinstance(v, bool) else (iv.mpf(v.numerator) / iv.mpf(v.denominator) if isinstance(v, Fraction) else iv.mpf(v))
+    raise _Unknown('u15')
+
+
+def _standard_refute(hyps, goal, tries=40):
+    import random
+    from mpmath import iv
+    iv.dps = 30
+    rnd = random.Random(4242)
+    c = _CTX[0]
+    ax = c._axiom_keys if c is not None else set()
+    hyps = [h for h in hyps if h.get_id() not in ax]          # the axioms of sqrt, exp, log, ... hold in the standard model by definition
+    for _ in range(tries):
+        env, memo = {}, {}
+        try:
+            ok = True
+            env['__hyp__'] = True
+            for h in hyps:
+                if _std_eval(h, env, rnd, memo) is not True:
+                    ok = False
+                    break
+            env['__hyp__'] = False
+            if not ok:
+                continue
+            if _std_eval(goal, env, rnd, {}) is False:
+                return env
+        except (_Unknown, ZeroDivisionError, OverflowError, ValueError) as e_:
+            if os.environ.get('KVC_DEBUG_RANDOM'):
+                print('STD-REFUTE candidate rejected:', type(e_).__name__, e_, flush=True)
+            continue
+        except Exception as e_:
+            if os.environ.get('KVC_DEBUG_RANDOM'):
+                import traceback
+                traceback.print_exc()
+            return None
+        if os.environ.get('KVC_DEBUG_RANDOM'):
+            bad = [str(h)[:200] for h in hyps if _std_eval(h, env, rnd, memo) is not True]
+            print('STD-REFUTE: hyps not true %d %s | goal %s' % (len(bad), bad[:2], 'n/a' if bad else _std_eval(goal, env, rnd, memo)), flush=True)
+    return None
+
+
+class _StdModel(object):
+    """model interface over a standard-model assignment (see _standard_refute): values are interval mid points as rationals"""
+    def __init__(self, env):
+        import random
+        self.env, self.rnd = env, random.Random(99)
+
+    def eval(self, t, model_completion=False):
+        try:
+            r = _std_eval(t, self.env, self.rnd, {})
+        except Exception:
+            return t
+        if isinstance(r, bool):
+            return z3.BoolVal(r)
+        import mpmath
+        sign, man, exp, bc = r.mid._mpi_[0] if hasattr(r.mid, '_mpi_') else mpmath.mpf(r.mid)._mpf_
+        v = Fraction(int(man)) * (Fraction(2) ** int(exp))
+        v = -v if sign else v
+        if z3.is_int(t):
+            return z3.IntVal(int(v))
+        return z3.RealVal(str(v.limit_denominator(10 ** 18)))
+
+
+def _mentions_std(fs):
+    seen, stack = set(), list(fs)
+    while stack:
+        t = stack.pop()
+        k = t.get_id()
+        if k in seen or z3.is_quantifier(t) or not z3.is_app(t):
+            continue
+        seen.add(k)
+        if t.num_args() > 0 and t.decl().kind() == z3.Z3_OP_UNINTERPRETED and t.decl().name() in _STD:
+            return True
+        stack.extend(t.children())
+    return False
+
+
 _DUMPN = [0]
 
 
@@ -1695,6 +1975,9 @@ def discharge(hyps, goal, timeout_ms, quick=False, refute_first=False):
         # deliberately wrong clause (canary): look for a counter-model before spending time on proof attempts
         try:
             am = _random_refute(hyps, goal)
+            if am is None and _mentions_std([goal]):
+                env_ = _standard_refute(hyps, goal)
+                am = _StdModel(env_) if env_ is not None else None
             if am is not None:
                 c0 = _CTX[0]
                 mm = None
@@ -1703,7 +1986,7 @@ def discharge(hyps, goal, timeout_ms, quick=False, refute_first=False):
                         mm = c0.concretise(am)
                     except Exception:
                         mm = None
-                return 'refuted', mm, ver + ' (counter-model found by random search, verified by evaluation)', ''
+                return 'refuted', mm, ver + ' (counter-model found by random search, verified by evaluation)' if not isinstance(am, _StdModel) else ver + ' (counter-model in the standard model of the transcendental functions, certified by interval evaluation)', ''
         except z3.Z3Exception:
             pass
     try:
@@ -1744,6 +2027,9 @@ def discharge(hyps, goal, timeout_ms, quick=False, refute_first=False):
     # (R) random search for a verified counter-model (cheap; catches failed polynomial identities whose models the nonlinear solver finds slowly)
     try:
         am = None if refute_first else _random_refute(hyps, goal, tries=1, timeout_ms=800)      # (already tried above when refute_first)
+        if am is None and not refute_first and _mentions_std([goal]):
+            env_ = _standard_refute(hyps, goal)
+            am = _StdModel(env_) if env_ is not None else None
         if am is not None:
             mm = None
             if c is not None:
@@ -1751,7 +2037,7 @@ def discharge(hyps, goal, timeout_ms, quick=False, refute_first=False):
                     mm = c.concretise(am)
                 except Exception:
                     mm = None
-            return 'refuted', mm, ver + ' (counter-model found by random search, verified by evaluation)', ''
+            return 'refuted', mm, ver + ' (counter-model found by random search, verified by evaluation)' if not isinstance(am, _StdModel) else ver + ' (counter-model in the standard model of the transcendental functions, certified by interval evaluation)', ''
     except z3.Z3Exception:
         pass
     cpu = max(2, timeout_ms // 1000)
